@@ -212,9 +212,35 @@ func keyshareChallengeInput(P *Program, R *Report) {
 	}
 }
 
+// keyIDSide: which form an (already normalised) condition on the element's KeyID selects.
+func keyIDSide(c Atom) string {
+	isNil := false
+	switch desc(c.V) {
+	case "(" + ksElem + ".KeyID==nil)", "(nil==" + ksElem + ".KeyID)":
+		isNil = c.Want == True
+	case "(" + ksElem + ".KeyID!=nil)", "(nil!=" + ksElem + ".KeyID)":
+		isNil = c.Want == False
+	default:
+		return ""
+	}
+	if isNil {
+		return "no-key"
+	}
+	return "key"
+}
+
+func middlePhi(tail []SeqElem) (*ssa.Phi, bool) {
+	if len(tail) != 3 || tail[1].V == nil {
+		return nil, false
+	}
+	p, ok := tail[1].V.(*ssa.Phi)
+	return p, ok
+}
+
 func keyshareContribsShape(P *Program, R *Report, rule string, fn *ssa.Function, phi *ssa.Phi, ch *ssa.Call) {
 	be := P.bigEval(fn)
 	nChains := 0
+	merged := false
 	for _, e := range phi.Edges {
 		if _, isMake := e.(*ssa.MakeSlice); isMake {
 			continue
@@ -232,12 +258,8 @@ func keyshareContribsShape(P *Program, R *Report, rule string, fn *ssa.Function,
 		if app != nil {
 			for _, c := range controllingConds(app.Block()) {
 				c = normAtom(c)
-				if desc(c.V) == "("+ksElem+".KeyID==nil)" {
-					if c.Want == True {
-						branch = "no-key"
-					} else {
-						branch = "key"
-					}
+				if b := keyIDSide(c); b != "" {
+					branch = b
 				}
 			}
 		}
@@ -263,10 +285,44 @@ func keyshareContribsShape(P *Program, R *Report, rule string, fn *ssa.Function,
 			want := termFn("Mod", tmul(tsym(ksElem+".Commitment"), termFn("Exp", tsym(pk+".R[0]"), tsym("arg#1"), tsym(pk+".N"))), tsym(pk+".N"))
 			R.decide(rule, kKSResponse+":contribs[key]", "element with KeyID contributes Value, Commitment * R0^randomizer mod N of that key, OtherCommitments...", okShape && t.equal(want), "got "+got+" middle="+t.String(), P.Pos(ch.Pos()))
 		default:
+			// one append for both forms, the middle element chosen by the same test:
+			// commitment := data.Commitment; if data.KeyID != nil { commitment = <product> }; append(.., Value, commitment, Other...)
+			if mphi, isPhi := middlePhi(tail); isPhi && len(mphi.Edges) == 2 && tail[0].D == ksElem+".Value" && tail[2].Kind == "spread" && tail[2].D == ksElem+".OtherCommitments" {
+				merged = true
+				for k, e := range mphi.Edges {
+					pred := mphi.Block().Preds[k]
+					side := "?"
+					for _, c := range append(controllingConds(pred), edgeCond(pred, mphi.Block())...) {
+						c = normAtom(c)
+						if b := keyIDSide(c); b != "" {
+							side = b
+						}
+					}
+					switch side {
+					case "no-key":
+						R.decide(rule, kKSResponse+":contribs[no key]", "element without KeyID contributes Value, Commitment, OtherCommitments...", desc(e) == ksElem+".Commitment", "got "+desc(e), P.Pos(ch.Pos()))
+					case "key":
+						t := termTop()
+						for _, ins := range pred.Instrs {
+							if c, isC := ins.(*ssa.Call); isC && bigMethod(c) != "" && bigMutators[bigMethod(c)] && len(callArgs(c)) > 0 && siteOf(callArgs(c)[0]) == siteOf(e) {
+								if rt, has := be.Ret[c]; has {
+									t = rt
+								}
+							}
+						}
+						pk := "arg#4[" + ksElem + ".KeyID]"
+						want := termFn("Mod", tmul(tsym(ksElem+".Commitment"), termFn("Exp", tsym(pk+".R[0]"), tsym("arg#1"), tsym(pk+".N"))), tsym(pk+".N"))
+						R.decide(rule, kKSResponse+":contribs[key]", "element with KeyID contributes Value, Commitment * R0^randomizer mod N of that key, OtherCommitments...", t.equal(want), "got "+got+" middle="+t.String(), P.Pos(ch.Pos()))
+					default:
+						R.und(rule, kKSResponse+":contribs[?]", "contribution branch is decided by KeyID == nil", "controlling condition of the middle element not found", P.Pos(ch.Pos()))
+					}
+				}
+				break
+			}
 			R.und(rule, kKSResponse+":contribs[?]", "contribution branch is decided by KeyID == nil", "controlling condition not found", P.Pos(ch.Pos()))
 		}
 	}
-	R.decide(rule, kKSResponse+":contribs-branches", "two per-element forms (key participates / does not)", nChains == 2, fmt.Sprintf("%d", nChains), P.Pos(ch.Pos()))
+	R.decide(rule, kKSResponse+":contribs-branches", "two per-element forms (key participates / does not)", nChains == 2 || (merged && nChains == 1), fmt.Sprintf("%d", nChains), P.Pos(ch.Pos()))
 	// index-ordered loop over the whole input
 	l := loopOver(fn, is(ksReq+".UserChallengeInput"))
 	loops := rangeLoopsOver(fn, is(ksReq+".UserChallengeInput"))
@@ -632,7 +688,16 @@ func buildDistributedRule(P *Program, R *Report) {
 				if !ok || !c.Call.IsInvoke() || c.Call.Method.Name() != "MergeProofP" {
 					return false
 				}
-				return desc(c.Call.Value) == "makeslice[#i]" && desc(callArgs(c)[0]) == "arg#2[#i]" && desc(callArgs(c)[1]) == "call:invoke:gabi.ProofBuilder.PublicKey(arg#0[#i])"
+				// the proof at position i: read back from the list, or the very value that this iteration files there
+				recvOK := desc(c.Call.Value) == "makeslice[#i]"
+				if !recvOK {
+					for _, r := range referrersOf(c.Call.Value) {
+						if st, isSt := r.(*ssa.Store); isSt && st.Val == c.Call.Value && desc(st.Addr) == "makeslice[#i]" {
+							recvOK = true
+						}
+					}
+				}
+				return recvOK && desc(callArgs(c)[0]) == "arg#2[#i]" && desc(callArgs(c)[1]) == "call:invoke:gabi.ProofBuilder.PublicKey(arg#0[#i])"
 			}}
 	}}}
 	m2 := fa2.inFn(fn, AcceptNilErr(1))
